@@ -16,12 +16,16 @@
      element of the requested pattern — after one step, one pass and the whole loop; a pass that rewrites
      nothing leaves only normal-ordered entries, and the fuel of the model always suffices
                                                        : C03_wick_step, C03_wick_loop, C03_wick_normal_form, C03_wick_complete
+   * the spin-free variant of the driver (slots, factor 2 for a contraction inside a slot, merging of two slots,
+     closing spin sort): for every number-conserving pattern the final work list carries the spin-summed matrix
+     element of the pattern                              : C03_wick_sf_step, C03_wick_sf_finish, C03_wick_sf_sound
   Element-by-element equality of every returned tensor with ⟨bra|pattern|ket⟩ (all orderings, ranks 1–4,
   transition quantities, both paths) is decided by the exact correspondence.
 -/
 import FqeVerif.Lemmas.TermAlgebra
 import FqeVerif.Props.C01
 import FqeVerif.Lemmas.Wick
+import FqeVerif.Lemmas.WickSF
 namespace C03
 open Fock Model
 
@@ -75,5 +79,44 @@ theorem C03_wick_complete (ρ : Nat → Nat) (f : Nat → Nat → Int) (a b : Na
     (∀ c ∈ wickNormalForm pattern, isNormal c.ops = true) ∧
     evalList ρ f a b (wickNormalForm pattern) = evalRes f (applyTerm (pattern.map (fun o => (ρ o.1, o.2))) a b) :=
   ⟨wickNormalForm_normal pattern, C03_wick_loop ρ f a b pattern⟩
+
+/-! ### the spin-free variant (`spinfree = True`, the route of every spin-summed RDM request) -/
+
+/-- one rewriting step of the spin-free driver — swap, or contraction inside one slot (factor 2) / between two slots
+    (the slots are merged) — preserves the spin-summed matrix element of a well-formed entry -/
+theorem C03_wick_sf_step (ρ : Nat → Nat) (f : Nat → Nat → Int) (a b R : Nat) (it : WItemSF) (hwf : wfSF R it) :
+    evalListSF ρ f a b R (wstepSF it) = evalItemSF ρ f a b R it ∧ ∀ c ∈ wstepSF it, wfSF R c :=
+  ⟨wstepSF_sound ρ f a b R it hwf, wstepSF_wf R it hwf⟩
+
+/-- the closing spin sort preserves the value of an entry whose halves each hold operators of one kind -/
+theorem C03_wick_sf_finish (ρ : Nat → Nat) (f : Nat → Nat → Int) (a b R : Nat) (it : WItemSF) (d1 d2 : Bool)
+    (h1 : ∀ o ∈ it.ops.take (it.ops.length / 2), o.2.1 = d1)
+    (h2 : ∀ o ∈ it.ops.drop (it.ops.length / 2), o.2.1 = d2) :
+    evalItemSF ρ f a b R (finishSF it) = evalItemSF ρ f a b R it :=
+  finishSF_sound ρ f a b R it d1 d2 h1 h2
+
+/-- **the spin-free Wick driver is correct for every number-conserving pattern**: with `2R` operators, slot =
+    position mod `R`, for every assignment `ρ` of orbitals to the letters, every bra functional `f` and every
+    determinant `(a, b)`, the work list after the rewriting loop (which ends within its fuel on normal-ordered
+    entries) and the closing spin sort satisfies
+        Σ_entries ± 2^twos · [deltas] · 2^(R − #deltas) · Σ_{spins of the R slots} ⟨f| remaining operators |a,b⟩
+          = 2^R · Σ_{spins of the R slots} ⟨f| pattern |a,b⟩ .
+    Each contraction leaves one slot without operators, whose spin sum is the factor 2 that `2^(R − #deltas)`
+    takes out: an entry contributes `± 2^twos · δ…δ ·` (spin-free lower-rank element over its live slots), which is what
+    the library reads from the lower-rank spin-free RDM. -/
+theorem C03_wick_sf_sound (ρ : Nat → Nat) (f : Nat → Nat → Int) (a b R : Nat) (pattern : List (Nat × Bool))
+    (hR : 0 < R) (hlen : pattern.length = 2 * R) (hbal : nDag pattern = nUndag pattern) :
+    evalListSF ρ f a b R (wickNormalFormSF pattern) =
+      2 ^ R * spinSum R (opsVal ρ f a b (initSF pattern).ops) :=
+  wickNormalFormSF_sound ρ f a b R pattern hR hlen hbal
+
+/-- the hypotheses are met by the library's own patterns, e.g. `i j^ k^ l` (rank 2); and the normal form of
+    `i j^` is `−j^ i + 2 δ_ij` -/
+example : (0 < 2) ∧ [(0, false), (1, true), (2, true), (3, false)].length = 2 * 2 ∧
+    nDag [(0, false), (1, true), (2, true), (3, false)] = nUndag [(0, false), (1, true), (2, true), (3, false)] := by
+  decide
+
+example : wickNormalFormSF [(0, false), (1, true)] =
+    [⟨[], [(1, true, 0), (0, false, 0)], true, 0⟩, ⟨[(0, 1)], [], false, 1⟩] := by decide
 
 end C03
